@@ -87,8 +87,6 @@ def canonical(cfg):
         c['mssdc_jac'] = True
     if c['P'] == 1:
         c['all_to_done'] = False
-        if c['predict'] == 'pfasst_burnin' and False:
-            pass
     return c
 
 
@@ -356,11 +354,6 @@ def run_case(arg):
             worst = max(worst, rc)
             if not rc <= 1.0:
                 viol.append(({'kind': 'returned_value_not_collocation_solution'}, {'err': errc, 'tol': tolc}))
-    elif not viol and n_unmet < N and uend is not None and rec and rec[-1]['uend'] is not None:
-        # premise failed somewhere: the returned value must still be the last step's own end value
-        errc = float(np.max(np.abs(flat(uend) - flat(rec[-1]['uend']))))
-        if errc > 0.0 and cfg['log_solution'] is False:
-            viol.append(({'kind': 'returned_value_is_not_last_step_value'}, {'err': errc}))
     res['ratio'] = worst
     res['info']['steps_premise_unmet'] = n_unmet
     res['info']['cpu_s'] = round(time.time() - t_start, 3)
@@ -439,6 +432,8 @@ def run(rep, tier):
             worst = max(worst, r['ratio'])
             if len(samples) < 4:
                 samples.append({'base': bname, 'deviation': {k: cfg[k] for k in cfg if cfg[k] != BASES[bname][k]}, 'dt': r['info'].get('dt'), 'niter': r['info'].get('niter'), 'worst_err_over_tol': r['ratio']})
+        if r['info'].get('predicted_reject_but_accepted'):
+            rej['accepted_although_rejection_predicted'] = rej.get('accepted_although_rejection_predicted', 0) + 1
         if oc_.startswith('rejected') or oc_ == 'run_refused':
             k = f"{oc_}:{r['info'].get('error')}"
             rej[k] = rej.get(k, 0) + 1
